@@ -11,8 +11,15 @@ Used by the rule modules of the properties whose anchors contain such classes.""
 from .facts import kids, strip, walk, is_call, render
 
 
-def _mentions(node, name):
-    return any(x["k"] == "DeclRefExpr" and x["decl"]["name"] == name for x in walk(node))
+def _mentions(node, name, inits=None, depth=0):
+    """does the expression name `name`, directly or through a local initialised from an expression that does"""
+    for x in walk(node):
+        if x["k"] == "DeclRefExpr":
+            if x["decl"]["name"] == name:
+                return True
+            if inits is not None and depth < 3 and x["decl"].get("kind") == "local" and x["decl"]["id"] in inits and _mentions(inits[x["decl"]["id"]], name, inits, depth + 1):
+                return True
+    return False
 
 
 def _field_of(n):
@@ -30,9 +37,19 @@ def _field_of(n):
     return None
 
 
-def copied_members(f, own, src):
+def copied_members(f, own, src, fb=None, depth=0):
     """members of *this that function f (copy ctor or operator=) sets from the source object `src`"""
     out = set()
+    from .facts import local_inits
+    li = local_inits(f)
+    # a copy constructor written as 'default-construct, then *this = src' (or any call of the class's own copy assignment on the
+    # source) copies what that assignment copies
+    if fb is not None and depth < 2:
+        for c in f.calls():
+            if c["callee"]["name"] == "operator=" and c["callee"].get("cls") == f.cls and f.args(c) and _mentions(f.args(c)[0], src) and ("obj" not in c or strip(f.obj(c))["k"] in ("CXXThisExpr", "UnaryOperator")):
+                for t in fb.targets(c, static_type_only=True):
+                    if t.body is not None and t.key != f.key and t.params:
+                        out |= copied_members(t, own, t.params[0]["name"], fb, depth + 1)
     for i in f.rec.get("inits", []):
         if i.get("fname") and i.get("written") and i.get("expr") is not None:
             e = f.nodes.get(i["expr"]) if isinstance(i["expr"], int) else i["expr"]
@@ -51,7 +68,7 @@ def copied_members(f, own, src):
         nm = None
         if t["k"] == "MemberExpr" and t["member"]["kind"] == "field" and t["member"].get("this"):
             nm = t["member"]["name"]
-        if nm in own and _mentions(rhs, src):
+        if nm in own and _mentions(rhs, src, li):
             out.add(nm)
     # a standard algorithm that writes into a member's range (or through an inserter on it) while reading the source
     for n in f.all_nodes():
@@ -129,13 +146,27 @@ def check(chk, fb, rid, select, floor=1, skip=()):
         short = cls.split("::")[-1].split("<")[0]
         cc = [f for f in fb.q(cls + "::" + short) if f.rec.get("copyctor") and f.body is not None]
         ca = [f for f in fb.q(cls + "::operator=") if f.rec.get("copyassign") and f.body is not None]
+        own = {fl["name"] for fl in c["fields"]}
+        if (cc and not ca) or (ca and not cc):
+            # one of the two is compiler-generated (= default or implicit): it copies every member; the user-provided one must too
+            n += 1
+            U = (cc or ca)[0]
+            got = copied_members(U, own, U.params[0]["name"], fb) & own
+            inited = {i.get("fname") for i in U.rec.get("inits", []) if i.get("fname") and i.get("written")}
+            missing = sorted(own - got - (inited if cc else set()))
+            if missing and ca:
+                chk.refuted(rid, U.key, "assign-copies:" + ",".join(missing), U.loc(),
+                            "%s::operator= does not copy member(s) %s while the copy constructor is compiler-generated and copies every member" % (short, missing),
+                            witness={"history": "two objects in different states, a = b, then use a"})
+            else:
+                chk.proved(rid, U.key, "copy-assign-agree", U.loc(), "the other copy function is compiler-generated; this one copies %s" % sorted(got))
+            continue
         if not cc or not ca:
             continue
         n += 1
         K, A = cc[0], ca[0]
-        own = {fl["name"] for fl in c["fields"]}
         sk, sa = K.params[0]["name"], A.params[0]["name"]
-        in_k, in_a = copied_members(K, own, sk) & own, copied_members(A, own, sa) & own
+        in_k, in_a = copied_members(K, own, sk, fb) & own, copied_members(A, own, sa, fb) & own
         only_k, only_a = sorted(in_k - in_a), sorted(in_a - in_k)
         if only_k:
             chk.refuted(rid, A.key, "assign-copies:" + ",".join(only_k), A.loc(),
